@@ -1,15 +1,66 @@
-(* C04 - A KSK signs only inside its validity window and only if it is the configured key (placeholder until Sign proofs land). *)
+(* C04 - A KSK signs only inside its validity window and only if it is the configured key.
+   H, token_sign, verify, ds_hex are parameters (oracles) of every theorem. *)
 From Coq Require Import String.
 From KV Require Import Base.Prelude Base.Exn Base.Bytes Model.Data Model.Wire Model.KsrPolicy Model.Token Model.Sign
-  Proofs.WireProofs.
+  Proofs.TokenProofs Proofs.SignProofs.
 
-Theorem C04_as_revoked_only_bit7 : forall k k',
-  as_revoked k = OK k' ->
-  k_flags k' = Z.lor (k_flags k) 128 /\
-  (forall i, i <> 7 -> Z.testbit (k_flags k') i = Z.testbit (k_flags k) i) /\
-  Z.testbit (k_flags k') 7 = true /\
-  k_id k' = k_id k /\ k_ttl k' = k_ttl k /\ k_proto k' = k_proto k /\ k_alg k' = k_alg k /\
-  k_pubtxt k' = k_pubtxt k /\ k_pub k' = k_pub k /\
-  calculate_key_tag k' = OK (k_tag k').
-Proof. exact as_revoked_only_bit7. Qed.
-Print Assumptions C04_as_revoked_only_bit7.
+(* lemmas proved inside a Section are generalised over the section's oracle variables even where unused:
+   instantiate the unused ones with dummies *)
+Definition dH : Z -> list Z -> list Z := fun _ _ => [].
+Definition dT : P11Key -> Z -> list Z -> res text := fun _ _ _ => Raise 0.
+Definition dV : text -> Z -> list Z -> text -> bool := fun _ _ _ _ => false.
+Definition dD : list Z -> text := fun _ => [].
+
+Theorem C04_used_key_in_window : forall ksk ms ttl b public ck,
+  load_pkcs11_key ksk ms ttl b public = OK (Some ck) -> in_window ksk b.
+Proof. exact (used_key_in_window dH dT dV). Qed.
+Print Assumptions C04_used_key_in_window.
+
+Theorem C04_outside_window_refused : forall ksk ms ttl b public,
+  ~ in_window ksk b -> load_pkcs11_key ksk ms ttl b public = Raise KeyUsagePolicy_Violation.
+Proof. exact (outside_window_refused dH dT dV). Qed.
+Print Assumptions C04_outside_window_refused.
+
+Theorem C04_window_boundary_inclusive : forall ksk b,
+  kk_valid_from ksk = b_inc b -> kk_valid_until ksk = Some (b_exp b) -> in_window ksk b.
+Proof. exact window_boundary_inclusive. Qed.
+Print Assumptions C04_window_boundary_inclusive.
+
+Theorem C04_used_key_matches_config : forall ksk ms ttl b public ck,
+  load_pkcs11_key ksk ms ttl b public = OK (Some ck) ->
+  exists pubtxt, pk_pub (ck_p11 ck) = Some pubtxt /\ k_pubtxt (ck_dns ck) = pubtxt /\ k_pub (ck_dns ck) = pk_pubraw (ck_p11 ck) /\
+    k_id (ck_dns ck) = kk_label ksk /\ k_alg (ck_dns ck) = kk_alg ksk /\ k_flags (ck_dns ck) = 257 /\ k_ttl (ck_dns ck) = ttl /\
+    calculate_key_tag (ck_dns ck) = OK (k_tag (ck_dns ck)) /\
+    ((pk_ktype (ck_p11 ck) = CKK_RSA /\ is_rsa (kk_alg ksk) = true /\
+       exists r, rsa_decode (pk_pubraw (ck_p11 ck)) = OK r /\ kk_rsa_size ksk = Some (rsa_bits r) /\ kk_rsa_exp ksk = Some (rsa_e r)) \/
+     (pk_ktype (ck_p11 ck) = CKK_EC /\ (is_ecdsa (kk_alg ksk) = true \/ is_eddsa (kk_alg ksk) = true))).
+Proof. exact (used_key_matches_config dH dT dV dD). Qed.
+Print Assumptions C04_used_key_matches_config.
+
+Theorem C04_identity_checked : forall ds_hex ksk dns,
+  validate_dnskey_matches_ksk ds_hex ksk dns = OK tt ->
+  (forall ds, kk_ds ksk = Some ds -> exists pre, ds_preimage dot dns = OK pre /\ ds = ds_hex pre) /\
+  (forall t, kk_tag ksk = Some t -> k_tag dns = t).
+Proof. exact (identity_checked dH dT dV). Qed.
+Print Assumptions C04_identity_checked.
+
+Theorem C04_missing_key_stops : forall ds_hex n rest b ms ttl kks public ksk,
+  lookup_name n kks = Some ksk -> load_pkcs11_key ksk ms ttl b public = OK None ->
+  fetch_keys ds_hex (n :: rest) b ms ttl kks public = Raise ConfigurationError.
+Proof. exact missing_key_stops. Qed.
+Print Assumptions C04_missing_key_stops.
+
+(* every key used in a slot (publish / revoke / sign) went through window, configuration and identity checks *)
+Theorem C04_fetched_keys_checked : forall ds_hex names b ms ttl kks public cks,
+  fetch_keys ds_hex names b ms ttl kks public = OK cks ->
+  Forall2 (fun n ck => exists ksk, lookup_name n kks = Some ksk /\ load_pkcs11_key ksk ms ttl b public = OK (Some ck) /\
+                                   validate_dnskey_matches_ksk ds_hex ksk (ck_dns ck) = OK tt) names cks.
+Proof. exact fetched_keys_checked. Qed.
+Print Assumptions C04_fetched_keys_checked.
+
+(* two objects under the label in the slot that is searched: an error (from C15) *)
+Theorem C04_duplicate_is_error : forall mi pre s post label cls hh o1 o2 more,
+  (forall s', In s' pre -> matches label cls s' = []) -> matches label cls s = o1 :: o2 :: more ->
+  find_in_slots mi (pre ++ s :: post) label cls hh = Raise RuntimeError.
+Proof. exact duplicate_is_error. Qed.
+Print Assumptions C04_duplicate_is_error.
